@@ -1164,6 +1164,23 @@ lys_unres_glob_revert(struct ly_ctx *ctx, struct lys_glob_unres *unres)
         lysc_module_free(&fctx, fctx.mod->compiled);
         fctx.mod->compiled = NULL;
 
+        /* the implemented modules of its dep set use its nodes and must be recompiled even
+         * if the dep set was compiled successfully before the error and their flags were unset */
+        for (j = 0; j < unres->dep_sets.count; ++j) {
+            dep_set = unres->dep_sets.objs[j];
+            if (!ly_set_contains(dep_set, fctx.mod, NULL)) {
+                continue;
+            }
+
+            for (idx = 0; idx < dep_set->count; ++idx) {
+                m = dep_set->objs[idx];
+                if (m->implemented) {
+                    m->to_compile = 1;
+                }
+            }
+            break;
+        }
+
         /* should not be made implemented */
         fctx.mod->to_compile = 0;
     }
